@@ -37,7 +37,8 @@ REGISTRY = {
     "C13": ["digitsVal_eq_posValue", "digitsVal_append_digit", "ratio_literal_exact", "percent_literal_exact",
             "percent_frac_literal_exact", "portion_var_ratio", "portion_var_percent", "portion_var_ratio_rejected",
             "roundtrip_string", "roundtrip_asset", "roundtrip_account", "roundtrip_portion", "roundtrip_number",
-            "roundtrip_monetary"], "C14": [], "C15": [], "C16": ["unbound_exact", "duplicate_exact", "unused_exact", "resolution_exact"], "C17": [], "C18": ["check_never_panics", "check_total", "symbols_never_panic", "hover_never_panics", "goto_never_panics",
+            "roundtrip_monetary"], "C14": [], "C15": [], "C16": ["unbound_exact", "duplicate_exact", "unused_exact", "resolution_exact"], "C17": ["clean_check_sound", "silent_check_no_sendall_shape_error", "checkExpression_sound",
+            "checkExpression_errors_mono", "checkExpression_declared"], "C18": ["check_never_panics", "check_total", "symbols_never_panic", "hover_never_panics", "goto_never_panics",
             "lspHover_never_panics", "check_keeps_parse_diags", "complete_is_benign_expr"],
     "C19": ["lsp_state_is_latest", "lsp_hover_answers_latest", "lsp_unknown_document", "lsp_no_cross_document",
             "lsp_queries_pure", "hover_expr_sound", "hover_expr_complete", "goto_is_declaration",
